@@ -487,6 +487,44 @@ class CFG:
                 return True
         return False
 
+    _WRAPPERS = ("list", "tuple", "sorted", "reversed", "set", "frozenset", "iter")
+
+    def _element_facts(self, st: ast.AST) -> list[Fact]:
+        """Facts about the loop variable of `for x in L` when L is (a local bound once to) a filtered comprehension `[e for e in S if C(e)]`:
+        every element satisfies C, so C(x) holds in the loop body.  The same loop written with the filter inside gets the same facts."""
+        if not isinstance(st, (ast.For, ast.AsyncFor)) or not isinstance(st.target, ast.Name):
+            return []
+        it = st.iter
+
+        def unwrap(e):
+            while isinstance(e, ast.Call) and isinstance(e.func, ast.Name) and e.func.id in self._WRAPPERS and len(e.args) >= 1:
+                e = e.args[0]
+            return e
+
+        it = unwrap(it)
+        if isinstance(it, ast.Name):
+            stores = [n for n in ast.walk(self.fnode) if isinstance(n, ast.Name) and n.id == it.id and isinstance(n.ctx, (ast.Store, ast.Del))]
+            assigns = [n for n in ast.walk(self.fnode) if isinstance(n, ast.Assign) and len(n.targets) == 1 and isinstance(n.targets[0], ast.Name) and n.targets[0].id == it.id]
+            mutated = any(isinstance(n, ast.Call) and isinstance(n.func, ast.Attribute) and n.func.attr in MUTATORS and isinstance(n.func.value, ast.Name) and n.func.value.id == it.id for n in ast.walk(self.fnode))
+            if len(stores) != 1 or len(assigns) != 1 or mutated:
+                return []
+            it = unwrap(assigns[0].value)
+        if not isinstance(it, (ast.ListComp, ast.SetComp, ast.GeneratorExp)) or len(it.generators) != 1 or not isinstance(it.elt, ast.Name):
+            return []
+        g = it.generators[0]
+        if it.elt.id not in names_in(g.target):
+            return []
+        import copy
+
+        out: list[Fact] = []
+        for cond in g.ifs:
+            c2 = copy.deepcopy(cond)
+            for n in ast.walk(c2):
+                if isinstance(n, ast.Name) and n.id == it.elt.id:
+                    n.id = st.target.id
+            out += atom_facts(c2, True)
+        return out
+
     def facts(self) -> dict[int, frozenset]:
         """facts[n] = facts holding on entry of node n on every path (must analysis)."""
         if self._facts is not None:
@@ -513,6 +551,8 @@ class CFG:
                     out = set(base)
                     if lab is not None and not (isinstance(lab[0], ast.Name) and lab[0].id == "<iter>"):
                         out |= set(atom_facts(lab[0], lab[1]))
+                    elif lab is not None and lab[1] is True and self.nodes[n].kind == "for":
+                        out |= set(self._element_facts(self.nodes[n].ast))
                     if self.g[n][s].get("kind") == "exc":
                         # on an exceptional edge the node may not have completed: keep only entry facts
                         out = set(inn[n])
